@@ -450,6 +450,8 @@ def run_block(cfg, ctx):
     if (ex1.delivered, ex1.end, ex1.sched.choices_taken()) != (ex2.delivered, ex2.end, ex2.sched.choices_taken()):
         ctx.violation({"kind": "harness-nondeterminism"}, {"cfg": c, "schedule": ch}, "two replays differ")
     ctx.extra["schedules_replayed_twice"] += 1
+    ctx.samples.insert(0, {"cfg": cfg, "one_complete_schedule": describe(ex1), "choices": ch,
+                           "delivered": [list(map(str, d)) for d in ex1.delivered], "end": list(ex1.end or ())})
 
 
 def replay(case):
